@@ -254,3 +254,46 @@ func VerifFromBytes(in []byte) verif.Int {
 	verif.Assume(v.Le(w) && w.Le(v))
 	return v
 }
+
+// BatchInvert (Montgomery's trick) over the abstract field layer: every non-zero input is replaced by its
+// inverse, every zero input keeps the value zero; n = 1..3 with every zero/non-zero pattern (case split).
+//
+//verif:ob prop=C04,C06 name=BatchInvert mode=int tags=purego,force32bit use=fa split=n:1..3;zp:0..7
+func vh_BatchInvert() {
+	n, zp := verif.Case("n"), verif.Case("zp")
+	if zp >= 1<<uint(n) {
+		return
+	}
+	P := fP()
+	els := make([]Element, n)
+	ptrs := make([]*Element, n)
+	g := make([]verif.Int, n)
+	for i := 0; i < n; i++ {
+		els[i] = VerifAnyElement("e" + string(rune('0'+i)))
+		verif.Assume(redOutOK(&els[i]))
+		g[i] = verif.AnyIntG("g" + string(rune('0'+i)))
+		VerifSetFv(&els[i], g[i])
+		isZero := g[i].Mod(P).Eq(verif.IntK(0))
+		verif.Assume(isZero == (zp>>uint(i)&1 == 1))
+		ptrs[i] = &els[i]
+	}
+	// p is prime (trusted): a product of non-zero field values is non-zero. Stated for the running products
+	// of the non-zero inputs, which is where the routine inverts.
+	acc := verif.IntK(1)
+	for i := 0; i < n; i++ {
+		if zp>>uint(i)&1 == 0 {
+			acc = acc.Mul(g[i])
+			verif.Assume(!acc.Mod(P).Eq(verif.IntK(0)))
+		}
+	}
+	BatchInvert(ptrs)
+	for i := 0; i < n; i++ {
+		out := VerifFv(&els[i])
+		if zp>>uint(i)&1 == 1 {
+			verif.Assert(verif.ModEq(out, verif.IntK(0), P), "a zero input keeps the value zero")
+		} else {
+			verif.Assert(verif.ModEq(out.Mul(g[i]), verif.IntK(1), P), "a non-zero input is replaced by its inverse: out * in = 1 (mod p)")
+		}
+		verif.Assert(redOutOK(&els[i]), "outputs are reduced representations")
+	}
+}
